@@ -10,6 +10,7 @@ Oracle   the harness's own model of the tree (it wrote every byte) gives the exp
          the expected set exactly, no duplicates, relative POSIX paths that equal relpath(entry, deepest history
          root), requested formats all present and every recorded digest equal to hashlib/xxhash of the bytes.
 """
+import os
 import posixpath
 
 from hypothesis import strategies as st
@@ -27,11 +28,11 @@ RULE = (
     "XML-special name, nested history, prior generation, -sf folder; distinct by canonical scenario hash."
 )
 ASSUMPTIONS = [
-    "only the default ignore patterns are in force (custom patterns are C12's domain)",
+    "history-based cases use the default ignore patterns only; a separate family seals flat trees with literal user patterns (-i / -ii, names with blanks); globs, directory patterns and accumulation are C12's domain",
     "regular files and directories only; names without control characters, U+2028/2029 excluded here (C10 covers them)",
 ]
 BUDGET = {"quick": (240, 4), "thorough": (72000, 16)}
-REQUIRED = ["nested", "prior_generation", "sf", "sf_folder", "empty_file", "empty_dir", "special_name", "-n", "prefix_sibling", "big_file"]
+REQUIRED = ["nested", "prior_generation", "sf", "sf_folder", "empty_file", "empty_dir", "special_name", "-n", "prefix_sibling", "big_file", "user_patterns_-ii", "pattern_with_blank"]
 
 CFG = {
     "kinds": ["create"] * 4 + ["create_sf"] * 2 + ["put_new", "put_new", "overwrite", "rm", "rmtree", "mkdir", "mv"],
@@ -75,8 +76,49 @@ def _scn(draw):
     return scn
 
 
+@st.composite
+def _flat_with_patterns(draw):
+    tree = draw(gen.trees("plain", max_leaves=10, min_top=2))
+    tree.setdefault("Camera Reports", {"report 1.txt": "r1"})
+    tree.setdefault("my notes.txt", "mine")
+    tree.setdefault("my", "a file named like a fragment of the pattern")
+    tree.setdefault("notes.txt", "another fragment")
+    names = sorted({p.split("/")[-1] for p in gen.tree_files(tree) + gen.tree_dirs(tree)})
+    pats = draw(st.lists(st.sampled_from(names + ["my notes.txt", "Camera Reports"]), min_size=1, max_size=3, unique=True))
+    return {"kind": "flat_with_patterns", "tree": tree, "patterns": pats, "via": draw(st.sampled_from(["-i", "-ii", "-ii"])), "gens": draw(st.lists(gen.formats(2), min_size=1, max_size=3)),
+            "newline": draw(st.booleans())}
+
+
 def strategy(tier):
-    return _scn()
+    return st.one_of(_scn(), _scn(), _scn(), _scn(), _scn(), _flat_with_patterns())
+
+
+def run_flat_with_patterns(scn, ctx):
+    from .c12 import matches
+
+    with World("c02p") as w:
+        w.build("R", scn["tree"])
+        os.makedirs(w.abs("_ii"), exist_ok=True)
+        with open(w.abs("_ii/patterns.txt"), "w") as fh:
+            fh.write("\n".join(scn["patterns"]) + ("\n" if scn["newline"] else ""))
+        extra = ["-ii", w.abs("_ii/patterns.txt")] if scn["via"] == "-ii" else [a for p in scn["patterns"] for a in ("-i", p)]
+        for gi, fm in enumerate(scn["gens"]):
+            res = w.create("R", fm, extra=extra if gi == 0 else [])
+            require(res.exc is None and res.exit_code == 0, "create-abort", res.brief(), res)
+            doc = w.read_history("R")[-1][2]
+            got = {(r["kind"], r["path"]) for r in doc["records"]}
+            exp = {("file", f[2:]) for f in w.media_files("R") if not matches(f[2:], scn["patterns"])} | {("dir", d[2:]) for d in w.media_dirs("R") if not matches(d[2:], scn["patterns"])}
+            require(got == exp, "missing-record" if exp - got else "extra-record",
+                    "generation %d with patterns %r (%s): not recorded %s, recorded but excluded %s" % (gi + 1, scn["patterns"], scn["via"], sorted(exp - got)[:4], sorted(got - exp)[:4]), res)
+            for r in doc["records"]:
+                if r["kind"] == "file":
+                    for e in r["entries"]:
+                        require(e["digest"] == refhash.digest(e["fmt"], w.files["R/" + r["path"]]), "digest", "%s %s" % (r["path"], e["fmt"]), res)
+        ctx.event("user_patterns_" + scn["via"])
+        if any(" " in p for p in scn["patterns"]):
+            ctx.event("pattern_with_blank")
+        ctx.mark_nontrivial(len(scn["gens"]) >= 2 or any(" " in p for p in scn["patterns"]))
+        return w.trace
 
 
 def check_paths_form(path, res):
@@ -142,6 +184,8 @@ def observe_create(w, scn, step, before_asc, res, ctx):
 
 
 def run_case(scn, ctx):
+    if scn.get("kind") == "flat_with_patterns":
+        return run_flat_with_patterns(scn, ctx)
     with World("c02") as w:
         hist.setup_world(w, scn)
         ncreates = 0
